@@ -106,7 +106,7 @@ def declared_instances(op):
     the type variable -> Int64 / String / Bool; const parameters const"""
     out = []
     for sig in op.signatures:
-        for tv in (Int64(), String(), Bool()):
+        for tv in (Int64(), String(), Bool(), Decimal(10, 2), Float32(), Decimal(), Date()):
             args = []
             for p in list(sig.types) + ([sig.types[-1]] if sig.is_vararg else []):
                 base = ptypes.without_const(p)
